@@ -2,6 +2,7 @@ import Driver.LruDrv
 import Driver.BlobDrv
 import Driver.DiskDrv
 import Driver.AuthDrv
+import Driver.ACDrv
 /-!
 Line-protocol driver over the executable models (DESIGN.md Appendix B).
 One operation per input line, one result line per operation.  Core Lean only, so that it links
@@ -26,6 +27,10 @@ def dispatch (s : DState) (line : String) : DState × String :=
     else if t.startsWith "disk." then
       match diskStep s.disk toks with
       | some (d, out) => ({ s with disk := d }, out)
+      | none => (s, "bad-op")
+    else if t.startsWith "ac." then
+      match acStep toks with
+      | some out => (s, out)
       | none => (s, "bad-op")
     else if t.startsWith "auth." then
       match authStep toks with
